@@ -279,7 +279,8 @@ func (h kvHandler) handleKvPessimisticRollback(req *kvrpcpb.PessimisticRollbackR
 			panic("KvPessimisticRollback: key not in region")
 		}
 	}
-	errs := h.mvccStore.PessimisticRollback(h.startKey, h.endKey, req.Keys, req.StartVersion, req.ForUpdateTs)
+	// the region range is kept in encoded form, the store scans by raw keys
+	errs := h.mvccStore.PessimisticRollback(MvccKey(h.startKey).Raw(), MvccKey(h.endKey).Raw(), req.Keys, req.StartVersion, req.ForUpdateTs)
 	return &kvrpcpb.PessimisticRollbackResponse{
 		Errors: convertToKeyErrors(errs),
 	}
